@@ -9,6 +9,7 @@ import Sourcer.Api
 import Sourcer.Proofs.ObjectsProofs
 import Sourcer.Proofs.WalkProofs
 import Sourcer.Proofs.TransformProofs
+import Sourcer.Proofs.ModulesProofs
 /-
   Property theorems (statements only; proofs are one-liners over Sourcer/Proofs/*).
   Every theorem is followed by an `example` showing its hypotheses are met by a concrete,
@@ -737,5 +738,29 @@ theorem C11_context_table_identity (names : List String) (n : String) :
   cases names.idxOf? n <;> simp
 
 example : ctxLookup (ownCtx ["start", "A", "B"]) "A" = some 1 := by decide
+
+section C13
+open Modules
+
+/-- **C13 (late binding).**  Every reference of a grammar module – also those inside inherited
+    rules – goes through the module's context table, and that table binds each name to the nearest
+    level of the `extends` chain that defines it. -/
+theorem C13_late_binding (levels : List (List String)) (n : String) :
+    lookup (chainCtx levels) n = nearest 0 levels n :=
+  chainCtxFrom_eq_nearest levels 0 [] n (by simp)
+
+/-- **C13 (super).**  `super.R` written at level `i` is looked up in the table of level `i + 1`
+    (the parent of the module that contains the reference), hence denotes the nearest definition
+    of `R` strictly above level `i` – whichever module the parse was started through. -/
+theorem C13_super (levels : List (List String)) (i : Nat) (n : String) :
+    lookup (chainCtx (levels.drop (i + 1))) n = nearest 0 (levels.drop (i + 1)) n :=
+  C13_late_binding _ n
+
+-- non-vacuity: C extends B extends A; R defined in A and B, S only in A, T in C
+example : lookup (chainCtx [["T", "start"], ["R"], ["start", "R", "S"]]) "R" = some (1, 0) := by decide
+example : lookup (chainCtx [["T", "start"], ["R"], ["start", "R", "S"]]) "S" = some (2, 2) := by decide
+example : lookup (chainCtx ([["T", "start"], ["R"], ["start", "R", "S"]].drop 2)) "R" = some (0, 1) := by decide
+
+end C13
 
 end Sourcer
